@@ -19,7 +19,7 @@ TYPES_FIX = ['types_fix_f64_ref', 'types_fix_f64_noref', 'types_fix_dec_ref', 't
 TYPES_THOROUGH = ['types_astro_f64_ref', 'types_fix_f64_ref', 'types_fix_f64_noref', 'types_fix_dec_ref', 'types_fix_dec_noref']
 
 PROPS = {
-    'C01': {'level': 'proof', 'quick': ['gen_hasref', 'lemmas_m1_f64', 'lemmas_m1_dec'] + TYPES_REF + ['kani_q_f64:cvt', 'kani_astro_f64:cvt', 'kani_fix_f64:cvt'],
+    'C01': {'level': 'proof', 'quick': ['gen_hasref', 'lemmas_m1_f64', 'lemmas_m1_dec'] + TYPES_REF + ['kani_q_f64:cvt', 'kani_astro_f64:cvt', 'kani_fix_f64:cvt', 'kani_q_f64:tab', 'kani_astro_f64:tab'],
             'thorough': TYPES_FIX,
             'expect': ['gen_hasref:trait LinearScaledUnit::ratio', 'gen_hasref:trait HasRefUnit::equiv_amount',
                        'gen_hasref:trait HasRefUnit::convert', 'gen_hasref:lemma_C01_L1_requested_unit',
@@ -44,7 +44,7 @@ PROPS = {
             'expect': ['c07_q_f64:lemma_C07_scale_Length_Inch', 'c07_q_dec:lemma_C07_scale_Length_Inch', 'c07_astro_f64:lemma_C07_scale_Length_Parsec',
                        'c07_q_f64:lemma_C07_si_prefixes_consistent_Mass', 'types_q_f64_ref:lemma_C07_ref_unit_scale_one_Length',
                        'types_q_f64_ref:impl LinearScaledUnit for LengthUnit::scale']},
-    'C08': {'level': 'proof', 'quick': ['gen_hasref'] + TYPES_Q + ['kani_q_f64:reg', 'kani_q_f64:m0'] + ['kani_q_f64:cops', 'kani_astro_f64:cops', 'kani_fix_f64:cops'], 'thorough': TYPES_FIX,
+    'C08': {'level': 'proof', 'quick': ['gen_hasref'] + TYPES_Q + ['kani_q_f64:reg', 'kani_q_f64:m0'] + ['kani_q_f64:cops', 'kani_astro_f64:cops', 'kani_fix_f64:cops', 'kani_q_f64:total', 'kani_astro_f64:total'], 'thorough': TYPES_FIX,
             'expect': ['gen_hasref:impl Quantity for AmountT::new', 'gen_hasref:impl Quantity for AmountT::amount',
                        'gen_hasref:impl Quantity for AmountT::unit', 'gen_hasref:impl LinearScaledUnit for One::scale',
                        'gen_hasref:impl Mul < One > for AmountT::mul', 'gen_hasref:impl Mul < AmountT > for One::mul']},
